@@ -294,8 +294,27 @@ fn sc(name: &str, cap: usize, n_rx: u8, threads: Vec<BThread>, pb: (Option<usize
 }
 
 pub fn scenarios() -> Vec<Scenario> {
+    let mut out = Vec::new();
+    for s in base_scenarios() {
+        let swapped = match &s.body {
+            Body::Bcast(b) if b.threads.len() == 2 => {
+                let mut b2 = b.clone();
+                b2.threads.swap(0, 1);
+                Some(Scenario { name: format!("{}@swap", s.name), body: Body::Bcast(b2), ..s.clone() })
+            }
+            _ => None,
+        };
+        out.push(s);
+        if let Some(x) = swapped {
+            out.push(x);
+        }
+    }
+    out
+}
+
+fn base_scenarios() -> Vec<Scenario> {
     use BStep::*;
-    let t2 = (Some(2), Some(3));
+    let t2 = (Some(2), Some(4));
     let t3 = (Some(1), Some(2));
     vec![
         sc("1p1c_send2_drain", 1, 1, vec![bt(false, Some(0), vec![TryRecv, Drain]), bt(true, None, vec![Send(1), Send(2)])], t2),
